@@ -65,4 +65,21 @@ PROPS = {
             "for unequal pairs only the equality facts (=, !=, count of {a,b}, dict lookup, repr inequality) are asserted",
         ],
     },
+    "C06": {
+        "level": "exploration",
+        "technique": "property-based testing (rapid): generated pairs/triples/quadruples of values of every kind; order laws checked on the implementation's own answers (validity predicate, no imposed order)",
+        "level_text": "Generated-input search: 2-4 values drawn across every kind and representation (numbers, tuples incl. @neg wrappers and "
+                      "sugar tuples, every set form, equal denotations through different construction paths, near-misses). One program reports the "
+                      "full < and = matrices, <= >= > != for the first pair, orderby . of the set built in two orders, max, min and the printed set. "
+                      "The oracle checks = against model equality, trichotomy, transitivity, derived relations, orderby being a sorted permutation, "
+                      "min/max being its ends and the printed member order being the sorted order. Absence beyond generated sizes is not established.",
+        "level_note": "Trusted: model equality, the law checker in c06_test.go, rapid. No expected order is imposed, only the order laws the property states.",
+        "tests": [{"name": "TestC06", "quick": 350, "thorough": 6000}],
+        "rule": "k in 2..4 values, each fresh, a duplicate of an earlier one through another construction path, or a one-step mutation of an earlier one. "
+                "Non-trivial: values of at least two different kinds, or a kind with offset/holes/multi-values/relation/union. Distinct = distinct program text.",
+        "assumptions": COMMON_ASSUMPTIONS + [
+            "two values at one sequence index are excluded by construction here (the superimposed-index finding makes the operand values themselves wrong); C01 covers them",
+            "printed order is compared only when the set of all values prints as a brace-enclosed member list (not as string/array/dict/relation sugar)",
+        ],
+    },
 }
